@@ -12,6 +12,8 @@ def c04Op (args : List String) : String :=
   | "fdviso" :: _ => "proc=1 served=full"
   | "mem" :: _ => "proc=1 mem=ok served=true"
   | "memsfo" :: _ => "proc=1 mem=ok alive=1"
+  | "fifo" :: _ => "proc=1 fifo=refused"
+  | "maxfile" :: _ => "proc=1 alive=1 open=refused tool=error-exit"
   | _ => "bad-op"
 
 end Driver
